@@ -411,155 +411,54 @@ func parseConstraint(constraintStr string) (constraint, error) {
 // groupConstraintsIntoIntervals groups VERS constraints into intervals according to the specification
 func groupConstraintsIntoIntervals(constraints []constraint) ([]interval, error) {
 	var intervals []interval
-	var lowerBounds []constraint
-	var upperBounds []constraint
-	var exactMatches []constraint
-	var excludes []constraint
 
-	// Separate constraints by type
-	for _, constraint := range constraints {
-		switch constraint.operator {
+	// The constraints are sorted by version, so the comparators alternate along the version
+	// line (VERS specification): an optional leading upper bound, then lower/upper pairs, then
+	// an optional trailing lower bound. One pass pairs each lower bound with the next upper bound.
+	var lower *constraint  // lower bound of the interval that is currently open
+	closedByUpper := false // the previous range comparator was an upper bound
+	for i := range constraints {
+		c := &constraints[i]
+		switch c.operator {
 		case "=":
-			exactMatches = append(exactMatches, constraint)
+			// Exact matches create individual intervals
+			intervals = append(intervals, interval{exact: c.version})
 		case "!=":
-			excludes = append(excludes, constraint)
+			// Excludes are handled separately in the contains function, not as intervals
 		case ">=", ">":
-			lowerBounds = append(lowerBounds, constraint)
+			// A second lower bound inside an open interval is the more restrictive one
+			lower = c
+			closedByUpper = false
 		case "<=", "<":
-			upperBounds = append(upperBounds, constraint)
+			switch {
+			case lower != nil:
+				intervals = append(intervals, interval{
+					lower:          lower.version,
+					lowerInclusive: lower.operator == ">=",
+					upper:          c.version,
+					upperInclusive: c.operator == "<=",
+				})
+				lower = nil
+			case !closedByUpper:
+				// leading upper bound: everything up to it
+				intervals = append(intervals, interval{
+					upper:          c.version,
+					upperInclusive: c.operator == "<=",
+				})
+			}
+			// a further upper bound right after one is less restrictive and adds nothing
+			closedByUpper = true
 		}
 	}
-
-	// Handle exact matches first - they create individual intervals
-	for _, exact := range exactMatches {
+	if lower != nil {
+		// trailing lower bound: everything from it on
 		intervals = append(intervals, interval{
-			exact: exact.version,
+			lower:          lower.version,
+			lowerInclusive: lower.operator == ">=",
 		})
 	}
 
-	// Excludes are handled separately in the contains function, not as intervals
-
-	// Handle range constraints (lower/upper bounds)
-	if len(lowerBounds) > 0 || len(upperBounds) > 0 {
-		// For VERS spec compliance, we need to analyze the constraint pattern:
-		// 1. If there are multiple bounds of the same type, take the most restrictive
-		// 2. If there's a mix creating logical intervals, pair them appropriately
-
-		// Determine if we should merge constraints (most restrictive) or create multiple intervals
-		shouldMerge := shouldMergeConstraints(lowerBounds, upperBounds)
-
-		if shouldMerge {
-			// Merge constraints: use most restrictive bounds
-			var mostRestrictiveLower *constraint
-			var mostRestrictiveUpper *constraint
-
-			// Find most restrictive lower bound (highest version)
-			// Since constraints are already sorted by version, take the last lower bound
-			if len(lowerBounds) > 0 {
-				mostRestrictiveLower = &lowerBounds[len(lowerBounds)-1]
-			}
-
-			// Find most restrictive upper bound (lowest version)
-			// Since constraints are already sorted by version, take the first upper bound
-			if len(upperBounds) > 0 {
-				mostRestrictiveUpper = &upperBounds[0]
-			}
-
-			// Create single interval from most restrictive bounds
-			if mostRestrictiveLower != nil && mostRestrictiveUpper != nil {
-				intervals = append(intervals, interval{
-					lower:          mostRestrictiveLower.version,
-					lowerInclusive: mostRestrictiveLower.operator == ">=",
-					upper:          mostRestrictiveUpper.version,
-					upperInclusive: mostRestrictiveUpper.operator == "<=",
-				})
-			} else if mostRestrictiveLower != nil {
-				intervals = append(intervals, interval{
-					lower:          mostRestrictiveLower.version,
-					lowerInclusive: mostRestrictiveLower.operator == ">=",
-				})
-			} else if mostRestrictiveUpper != nil {
-				intervals = append(intervals, interval{
-					upper:          mostRestrictiveUpper.version,
-					upperInclusive: mostRestrictiveUpper.operator == "<=",
-				})
-			}
-		} else {
-			// Handle non-merge cases: either pairing or individual intervals
-
-			// If equal counts, pair them to create intervals (e.g., alternating pattern)
-			if len(lowerBounds) == len(upperBounds) && len(lowerBounds) > 1 {
-				// Pair constraints to create intervals
-				for i := 0; i < len(lowerBounds); i++ {
-					intervals = append(intervals, interval{
-						lower:          lowerBounds[i].version,
-						lowerInclusive: lowerBounds[i].operator == ">=",
-						upper:          upperBounds[i].version,
-						upperInclusive: upperBounds[i].operator == "<=",
-					})
-				}
-			} else {
-				// Create individual intervals for each constraint
-				// This allows each constraint to be satisfied independently
-
-				// Create interval for each lower bound
-				for _, lower := range lowerBounds {
-					intervals = append(intervals, interval{
-						lower:          lower.version,
-						lowerInclusive: lower.operator == ">=",
-					})
-				}
-
-				// Create interval for each upper bound
-				for _, upper := range upperBounds {
-					intervals = append(intervals, interval{
-						upper:          upper.version,
-						upperInclusive: upper.operator == "<=",
-					})
-				}
-			}
-		}
-	}
-
 	return intervals, nil
-}
-
-// shouldMergeConstraints determines whether constraints should be merged (most restrictive)
-// or create multiple intervals based on the constraint pattern
-func shouldMergeConstraints(lowerBounds, upperBounds []constraint) bool {
-	// Based on analysis of failing/passing tests:
-	//
-	// PASSING tests that expect merging (should return true here):
-	// - "multiple_lower_bounds_-_should_take_most_restrictive": 2 lower + 1 upper -> merge
-	// - "multiple_upper_bounds_-_should_take_most_restrictive": 1 lower + 2 upper -> merge
-	//
-	// FAILING tests that expect individual intervals (should return false here):
-	// - "maven_unordered_constraints_-_outside_range": 2 lower + 1 upper -> individual intervals
-	//
-	// This creates a contradiction! Same pattern (2 lower + 1 upper) expects different behavior.
-	// The only difference might be the specific constraint values or test expectations.
-
-	// Let me try a different approach: merge only when counts are equal (suggesting pairing)
-	// or when there's exactly one of each bound
-
-	// Case 1: Exactly one lower and one upper -> clearly should merge
-	if len(lowerBounds) == 1 && len(upperBounds) == 1 {
-		return true
-	}
-
-	// Case 2: Multiple bounds of same type -> should merge to most restrictive
-	// This handles the "should_take_most_restrictive" test cases
-	if (len(lowerBounds) > 1 && len(upperBounds) == 1) || (len(lowerBounds) == 1 && len(upperBounds) > 1) {
-		return true
-	}
-
-	// Case 3: Equal counts suggest pairing intent -> pair them
-	if len(lowerBounds) == len(upperBounds) && len(lowerBounds) > 1 {
-		return false // Pair them, which happens in the non-merge logic
-	}
-
-	// Case 4: Multiple bounds of both types with unequal counts -> individual intervals
-	return false
 }
 
 // Contains checks if a version satisfies a VERS range using the stateless API.
